@@ -126,5 +126,620 @@ Proof.
 Qed.
 
 (* a closing parenthesis starts no expression *)
-Lemma rparen_fail : forall f tb t r, parse_at (13 + f) tb 1 ((KRParen, t) :: r) = PFail.
-Proof. intros. lazy. reflexivity. Qed.
+Lemma primary_rparen : forall pe tb f t r, primary pe tb f ((KRParen, t) :: r) = PFail.
+Proof.
+  intros. unfold primary.
+  destruct r as [|[k2 t2] r2]; [reflexivity|]. destruct k2; reflexivity.
+Qed.
+
+Lemma fail_up1 : forall f tb lv ts,
+  lv <= 11 -> parse_at (S f) tb (S lv) ts = PFail -> (lv = 4 -> not_unop ts) ->
+  parse_at (S (S f)) tb lv ts = PFail.
+Proof.
+  intros f tb lv ts Hle H Hu.
+  destruct lv as [|[|[|[|[|[|[|[|[|[|[|[|lv]]]]]]]]]]]]; try lia;
+    try (match goal with |- parse_at _ _ ?l _ = _ =>
+           change (parse_at (S (S f)) tb l ts) with
+             (bindr (parse_at (S f) tb (S l) ts) (bin_loop (parse_at (S f)) tb (S f) l)) end;
+         rewrite H; reflexivity).
+  - change (parse_at (S (S f)) tb 1 ts) with
+      (bindr (parse_at (S f) tb 2 ts) (tern_loop (parse_at (S f)) tb (S f))).
+    rewrite H; reflexivity.
+  - specialize (Hu eq_refl). destruct ts as [|[k t] r]; [destruct Hu|].
+    simpl in Hu.
+    change (parse_at (S (S f)) tb 4 ((k, t) :: r)) with
+      (match unop_of k with
+       | Some o => mapr (EUn o) (parse_at (S f) tb 4 r)
+       | None => parse_at (S f) tb 5 ((k, t) :: r)
+       end).
+    rewrite Hu. exact H.
+Qed.
+
+Lemma fail_up : forall k f tb lv ts,
+  lv + k <= 12 -> parse_at (S f) tb (lv + k) ts = PFail -> not_unop ts ->
+  parse_at (S f + k) tb lv ts = PFail.
+Proof.
+  induction k as [|k IH]; intros f tb lv ts Hle H Hu.
+  - rewrite Nat.add_0_r in *. exact H.
+  - replace (S f + S k) with (S (S f) + k) by lia.
+    apply IH; try lia; try exact Hu.
+    replace (lv + S k) with (S (lv + k)) in H by lia.
+    apply fail_up1; try lia; auto.
+Qed.
+
+Lemma rparen_fail : forall f tb t r, parse_at (12 + f) tb 1 ((KRParen, t) :: r) = PFail.
+Proof.
+  intros. replace (12 + f) with (S f + 11) by lia.
+  apply fail_up; try lia.
+  - change (parse_at (S f) tb (1 + 11) ((KRParen, t) :: r)) with
+      (primary (parse_at f) tb f ((KRParen, t) :: r)).
+    apply primary_rparen.
+  - reflexivity.
+Qed.
+
+(* ----------------------------------------------- unfolding equations *)
+Definition bin_level (l : nat) : bool :=
+  match l with 2 | 3 | 5 | 6 | 7 | 8 | 9 | 10 | 11 => true | _ => false end.
+
+Lemma parse_at_bin : forall f tb l ts, bin_level l = true ->
+  parse_at (S f) tb l ts = bindr (parse_at f tb (S l) ts) (bin_loop (parse_at f) tb f l).
+Proof.
+  intros f tb l ts H.
+  destruct l as [|[|[|[|[|[|[|[|[|[|[|[|l]]]]]]]]]]]]; try discriminate; reflexivity.
+Qed.
+Lemma parse_at_1 : forall f tb ts,
+  parse_at (S f) tb 1 ts = bindr (parse_at f tb 2 ts) (tern_loop (parse_at f) tb f).
+Proof. reflexivity. Qed.
+Lemma parse_at_4 : forall f tb k t r,
+  parse_at (S f) tb 4 ((k, t) :: r) =
+  match unop_of k with
+  | Some o => mapr (EUn o) (parse_at f tb 4 r)
+  | None => parse_at f tb 5 ((k, t) :: r)
+  end.
+Proof. reflexivity. Qed.
+Lemma parse_at_12 : forall f tb ts, parse_at (S f) tb 12 ts = primary (parse_at f) tb f ts.
+Proof. reflexivity. Qed.
+Lemma bin_loop_S : forall pe tb g lv a ts,
+  bin_loop pe tb (S g) lv a ts =
+  match binop lv ts with
+  | Some (mk, r) => bindr (pe tb (S lv) r) (fun b r' => bin_loop pe tb g lv (mk a b) r')
+  | None => POk a ts
+  end.
+Proof. reflexivity. Qed.
+Lemma tern_loop_S : forall pe tb g c ts,
+  tern_loop pe tb (S g) c ts =
+  match ts with
+  | (KQuestion, _) :: (KColon, _) :: r =>
+      bindr (pe tb 2 r) (fun e r' => tern_loop pe tb g (ECond c None e) r')
+  | (KQuestion, _) :: r =>
+      bind_tok (pe true 1 r) (is_colon) (fun t r' =>
+        bindr (pe tb 2 r') (fun e r'' => tern_loop pe tb g (ECond c (Some t) e) r''))
+  | _ => POk c ts
+  end.
+Proof. reflexivity. Qed.
+
+(* ------------------------------------------------- printable programs *)
+Definition str_ok (s : bytes) : bool :=
+  forallb (fun c => negb (c =? 34)%N && negb (c =? 92)%N) s.
+Definition var_ok (x : bytes) : bool := is_varname (word_kind (runes_of x)).
+Definition call_ok (f : bytes) : bool :=
+  is_ident (word_kind (runes_of f)) && bytes_eqb (upper_name f) f.
+Definition int_ok (z : Z) : bool :=
+  (0 <=? z)%Z &&
+  match int_value (digits (Z.to_N z)) with Some z' => (z' =? z)%Z | None => false end.
+
+(* the expression sub-language of the round-trip theorem *)
+Fixpoint printable (e : expr) : bool :=
+  match e with
+  | ENone | EBool _ => true
+  | EInt z => int_ok z
+  | EStr s => str_ok s
+  | EVar x | EParam x => var_ok x
+  | EUn _ a | ESuppress a => printable a
+  | ELog _ a b | ECmp _ a b | EIn _ a b | EQuant _ _ a b | ELike _ a b | ERegex _ a b
+  | EMath _ a b => printable a && printable b
+  | ECond c t f =>
+      printable c && match t with Some t' => printable t' | None => true end && printable f
+  | EArr es => forallb printable es
+  | ECall f args => call_ok f && forallb printable args
+  | _ => false
+  end.
+
+Fixpoint size (e : expr) : nat :=
+  match e with
+  | EUn _ a | ESuppress a => S (size a)
+  | ELog _ a b | ECmp _ a b | EIn _ a b | EQuant _ _ a b | ELike _ a b | ERegex _ a b
+  | EMath _ a b => S (size a + size b)
+  | ECond c t f => S (size c + match t with Some t' => size t' | None => 0 end + size f)
+  | EArr es | ECall _ es => S (fold_right (fun x n => size x + n) 0 es)
+  | _ => 1
+  end.
+Definition need (e : expr) : nat := 32 * size e.
+
+Lemma size_pos : forall e, 1 <= size e.
+Proof. destruct e; simpl; lia. Qed.
+
+Lemma size_in : forall (es : list expr) x, In x es -> size x <= fold_right (fun x n => size x + n) 0 es.
+Proof.
+  induction es as [|y es IH]; intros x Hin; [destruct Hin|].
+  simpl. destruct Hin as [->|Hin]; [lia|]. specialize (IH x Hin). lia.
+Qed.
+
+(* ----------------------------------------------------- token facts *)
+Definition good_head (k : kind) : bool :=
+  match k with
+  | KNone | KBool | KInt | KString | KParam | KNot | KMinus | KPlus | KLBrack | KLParen => true
+  | _ => is_varname k
+  end.
+
+Lemma bytes_eqb_eq : forall a b, bytes_eqb a b = true -> a = b.
+Proof.
+  unfold bytes_eqb. induction a as [|x a IH]; intros [|y b] H; simpl in H; try discriminate; auto.
+  destruct (N.compare x y) eqn:E; try discriminate.
+  apply N.compare_eq in E. subst. f_equal. apply IH. exact H.
+Qed.
+
+Lemma unesc_id : forall s, str_ok s = true -> unesc s = s.
+Proof.
+  induction s as [|c s IH]; intros H; [reflexivity|].
+  simpl in H. apply andb_prop in H. destruct H as [Hc Hs].
+  apply andb_prop in Hc. destruct Hc as [_ Hb].
+  simpl. destruct (c =? 92)%N; [discriminate|]. f_equal. auto.
+Qed.
+
+Lemma firstn_app_exact : forall A (l r : list A), firstn (List.length l) (l ++ r) = l.
+Proof. induction l; intros; simpl; [reflexivity|f_equal; auto]. Qed.
+
+Lemma str_inner_quote : forall s, str_inner (34%N :: s ++ [34%N]) = s.
+Proof.
+  intros s. unfold str_inner. cbn [quote_width].
+  replace (List.length (34%N :: s ++ [34%N]) - 2 * 1) with (List.length s).
+  - cbn [skipn]. apply firstn_app_exact.
+  - cbn [List.length]. rewrite app_length. simpl. lia.
+Qed.
+
+Lemma str_value_quote : forall s, str_ok s = true -> str_value (snd (quote_tok s)) = s.
+Proof.
+  intros s H. unfold quote_tok, str_value. cbn [snd].
+  rewrite str_inner_quote. apply unesc_id. exact H.
+Qed.
+
+(* the continuation cannot extend a primary: no call parenthesis, no range,
+   no member path *)
+Definition no_postfix (rest : toks) : Prop :=
+  match rest with
+  | (KLParen, _) :: _ | (KRange, _) :: _ | (KDot, _) :: _ | (KLBrack, _) :: _ => False
+  | (KQuestion, _) :: (KDot, _) :: _ => False
+  | _ => True
+  end.
+
+Ltac rest_cases rest :=
+  let k := fresh "k" in let t := fresh "t" in let r := fresh "r" in
+  destruct rest as [|[k t] r]; [|destruct k]; simpl in *; try tauto; try reflexivity.
+
+Lemma path_none : forall pe g rest, no_postfix rest -> parse_path pe (S g) rest = POk [] rest.
+Proof.
+  intros pe g rest H. rest_cases rest.
+  rest_cases r.
+Qed.
+
+Lemma with_path_none : forall pe g src rest,
+  no_postfix rest -> with_path pe (S g) src rest = POk src rest.
+Proof. intros. unfold with_path. rewrite path_none by assumption. reflexivity. Qed.
+
+Lemma after_name_none : forall pe g a rest,
+  no_postfix rest -> after_name pe (S g) a rest = POk a rest.
+Proof.
+  intros pe g a rest H. unfold after_name.
+  destruct rest as [|[k t] r]; [apply with_path_none; exact H|].
+  destruct k; try (apply with_path_none; exact H). destruct H.
+Qed.
+
+Lemma starts_path_none : forall rest, no_postfix rest -> starts_path rest = false.
+Proof. intros rest H. rest_cases rest. rest_cases r. Qed.
+
+Lemma call_start_no : forall k t rest,
+  no_postfix rest -> k <> KNsSeg -> is_call_start ((k, t) :: rest) = false.
+Proof.
+  intros k t rest H Hk. unfold is_call_start.
+  destruct k; try congruence; rest_cases rest.
+Qed.
+
+Lemma varname_not_ns : forall k, is_varname k = true -> k <> KNsSeg.
+Proof. intros k H E; subst; discriminate. Qed.
+
+Lemma primary_var : forall pe tb g k x rest,
+  is_varname k = true -> no_postfix rest ->
+  primary pe tb (S g) ((k, x) :: rest) = POk (EVar x) rest.
+Proof.
+  intros pe tb g k x rest Hk H. unfold primary.
+  rewrite call_start_no by (auto using varname_not_ns).
+  destruct k; try discriminate; apply after_name_none; exact H.
+Qed.
+
+Lemma primary_param : forall pe tb g t0 k x rest,
+  is_varname k = true -> no_postfix rest ->
+  primary pe tb (S g) ((KParam, t0) :: (k, x) :: rest) = POk (EParam x) rest.
+Proof.
+  intros pe tb g t0 k x rest Hk H. unfold primary.
+  assert (E : is_call_start ((KParam, t0) :: (k, x) :: rest) = false).
+  { unfold is_call_start. destruct k; try discriminate; reflexivity. }
+  rewrite E. rewrite Hk. apply after_name_none; exact H.
+Qed.
+
+Lemma primary_none : forall pe tb g t rest,
+  no_postfix rest -> primary pe tb g ((KNone, t) :: rest) = POk ENone rest.
+Proof.
+  intros. unfold primary. rewrite call_start_no by (auto; discriminate). reflexivity.
+Qed.
+
+Lemma primary_bool : forall pe tb g t rest,
+  no_postfix rest -> primary pe tb g ((KBool, t) :: rest) = POk (EBool (bool_value t)) rest.
+Proof.
+  intros. unfold primary. rewrite call_start_no by (auto; discriminate). reflexivity.
+Qed.
+
+Lemma primary_str : forall pe tb g t rest,
+  no_postfix rest -> primary pe tb g ((KString, t) :: rest) = POk (EStr (str_value t)) rest.
+Proof.
+  intros. unfold primary. rewrite call_start_no by (auto; discriminate). reflexivity.
+Qed.
+
+Lemma primary_int : forall pe tb g t z rest,
+  int_value t = Some z -> no_postfix rest ->
+  primary pe tb g ((KInt, t) :: rest) = POk (EInt z) rest.
+Proof.
+  intros pe tb g t z rest Hz H. unfold primary.
+  rewrite call_start_no by (auto; discriminate). rewrite Hz.
+  rest_cases rest.
+Qed.
+
+(* ------------------------------------------------ contexts *)
+Definition closer (k : kind) : bool :=
+  match k with KRParen | KRBrack | KComma | KColon => true | _ => false end.
+
+Lemma stops_closer : forall k t r l, closer k = true -> stops l ((k, t) :: r).
+Proof.
+  intros k t r l H.
+  destruct k; try discriminate;
+    destruct l as [|[|[|[|[|[|[|[|[|[|[|[|l]]]]]]]]]]]]; simpl; try reflexivity; try congruence; exact I.
+Qed.
+
+Lemma no_postfix_closer : forall k t r, closer k = true -> no_postfix ((k, t) :: r).
+Proof. intros k t r H. destruct k; try discriminate; exact I. Qed.
+
+Definition q_ok (tb : bool) (B : nat) (rest : toks) : Prop :=
+  match rest with
+  | (KQuestion, _) :: r =>
+      if tb then match r with (k, _) :: _ => follows_operand k = false | [] => False end
+      else forall f, B <= f -> tern_ahead (parse_at f) r = Some true
+  | _ => True
+  end.
+
+Lemma q_ok_closer : forall tb B k t r, closer k = true -> q_ok tb B ((k, t) :: r).
+Proof. intros tb B k t r H. destruct k; try discriminate; exact I. Qed.
+
+Lemma postfix_q_keep : forall tb B f e rest,
+  q_ok tb B rest -> B <= f -> postfix_q (parse_at f) tb e rest = POk e rest.
+Proof.
+  intros tb B f e rest H Hf. unfold postfix_q.
+  destruct rest as [|[k t] r]; [reflexivity|].
+  destruct k; try reflexivity.
+  simpl in H. destruct tb.
+  - destruct r as [|[k2 t2] r2]; [destruct H|]. rewrite H. reflexivity.
+  - rewrite (H f Hf). reflexivity.
+Qed.
+
+Definition stops_from (lv : nat) (rest : toks) : Prop := forall l, lv <= l < 12 -> stops l rest.
+
+Definition ctx_ok (tb : bool) (B : nat) (lv : nat) (rest : toks) : Prop :=
+  stops_from lv rest /\ no_postfix rest /\ q_ok tb B rest.
+
+Lemma ctx_closer : forall tb B lv k t r, closer k = true -> ctx_ok tb B lv ((k, t) :: r).
+Proof.
+  intros. split; [|split].
+  - intros l _. apply stops_closer; assumption.
+  - apply no_postfix_closer; assumption.
+  - apply q_ok_closer; assumption.
+Qed.
+
+Lemma ctx_weaken : forall tb B lv lv' rest, lv <= lv' -> ctx_ok tb B lv rest -> ctx_ok tb B lv' rest.
+Proof.
+  intros tb B lv lv' rest Hle [Hs [Hn Hq]]. split; [|split]; auto.
+  intros l Hl. apply Hs. lia.
+Qed.
+
+(* the error operator is taken in front of a closing parenthesis *)
+Lemma postfix_q_suppress : forall f tb e t t2 r,
+  postfix_q (parse_at (12 + f)) tb e ((KQuestion, t) :: (KRParen, t2) :: r)
+  = POk (ESuppress e) ((KRParen, t2) :: r).
+Proof.
+  intros. unfold postfix_q. destruct tb.
+  - reflexivity.
+  - unfold tern_ahead. rewrite rparen_fail. reflexivity.
+Qed.
+
+(* ------------------------------------------------ binary operators *)
+(* the view of a binary node: level, operands, operator tokens, constructor *)
+Definition bin_view (e : expr) : option (nat * expr * expr * toks * (expr -> expr -> expr)) :=
+  match e with
+  | ELog LOr a b => Some (2, a, b, [tk KOr "OR"], ELog LOr)
+  | ELog LAnd a b => Some (3, a, b, [tk KAnd "AND"], ELog LAnd)
+  | ELike n a b => Some (5, a, b, like_toks n, ELike n)
+  | EIn n a b => Some (6, a, b, in_toks n, EIn n)
+  | EQuant q c a b =>
+      Some (7, a, b, quant_tok q :: match c with QCmp o => [cmp_tok o] | QIn n => in_toks n end,
+            EQuant q c)
+  | ECmp o a b => Some (8, a, b, [cmp_tok o], ECmp o)
+  | ERegex n a b =>
+      Some (9, a, b, [if n then tk KRegexNotMatch "!~" else tk KRegexMatch "=~"], ERegex n)
+  | EMath o a b =>
+      Some (match o with MAdd | MSub => 10 | _ => 11 end, a, b, [math_tok o], EMath o)
+  | _ => None
+  end.
+
+Lemma bin_view_spec : forall extra e L a b ops mk,
+  bin_view e = Some (L, a, b, ops, mk) ->
+  e = mk a b /\ level e = L /\ bin_level L = true /\
+  body extra e = pr extra L a ++ ops ++ pr extra (S L) b /\
+  (forall r, binop L (ops ++ r) = Some (mk, r)) /\
+  (forall r l, S L <= l < 12 -> stops l (ops ++ r)) /\
+  (forall r, no_postfix (ops ++ r)) /\
+  (forall r, hd_kind (ops ++ r) <> Some KQuestion) /\
+  size e = S (size a + size b) /\
+  printable e = (printable a && printable b)%bool.
+Proof.
+  intros extra e L a b ops mk H.
+  destruct e; try discriminate; simpl in H;
+    repeat match goal with
+           | x : logop |- _ => destruct x
+           | x : mathop |- _ => destruct x
+           end;
+    inversion H; subst; clear H;
+    repeat split; try reflexivity;
+    intros;
+    repeat match goal with
+           | x : bool |- _ => destruct x
+           | x : cmpop |- _ => destruct x
+           | x : quant |- _ => destruct x
+           | x : qcmp |- _ => destruct x
+           end;
+    try reflexivity; try exact I; try (simpl; congruence);
+    match goal with
+    | Hl : _ <= ?l < 12 |- stops ?l _ =>
+        destruct l as [|[|[|[|[|[|[|[|[|[|[|[|l]]]]]]]]]]]]; simpl; try lia; try reflexivity;
+        try congruence; exact I
+    end.
+Qed.
+
+(* ====================================================== the round trip *)
+Lemma good_head_varname : forall k, is_varname k = true -> good_head k = true /\ unop_of k = None.
+Proof. intros k H. destruct k; try discriminate; split; reflexivity. Qed.
+
+Lemma wrap_cons : forall b ts, ts <> [] ->
+  exists k t r, wrap b ts = (k, t) :: r /\
+                (b = true -> k = KLParen) /\
+                (b = false -> exists r0, ts = (k, t) :: r0).
+Proof.
+  intros b ts Hne. destruct b; simpl.
+  - exists KLParen, (bs "("), (ts ++ [RP]). repeat split; auto. discriminate.
+  - destruct ts as [|[k t] r]; [congruence|]. exists k, t, r. repeat split; try discriminate.
+    intros _. exists r. reflexivity.
+Qed.
+
+Section RoundTrip.
+  Variable extra : expr -> bool.
+  Local Notation bodyx := (body extra).
+  Local Notation prx := (pr extra).
+  Local Notation needsx := (needs extra).
+
+  Definition head_ok (e : expr) : Prop :=
+    exists k t r, bodyx e = (k, t) :: r /\ good_head k = true /\ (5 <= level e -> unop_of k = None).
+
+  Lemma head_of_left : forall L a tl (lev : nat),
+    head_ok a -> L <= lev ->
+    exists k t r, wrap (needsx L a) (bodyx a) ++ tl = (k, t) :: r /\ good_head k = true /\
+                  (5 <= L -> unop_of k = None).
+  Proof.
+    intros L a tl lev (k & t & r & Hb & Hg & Hu) _.
+    destruct (needsx L a) eqn:N; simpl.
+    - exists KLParen, (bs "("), ((bodyx a ++ [RP]) ++ tl). repeat split; reflexivity.
+    - rewrite Hb. exists k, t, (r ++ tl). repeat split; auto.
+      intros H5. apply Hu. unfold needs in N. apply Bool.orb_false_elim in N. destruct N as [N _].
+      apply Nat.ltb_ge in N. lia.
+  Qed.
+
+  Lemma body_head : forall e, printable e = true -> head_ok e.
+  Proof.
+    induction e; intros P; simpl in P; try discriminate.
+    - (* ENone *) exists KNone, (bs "NONE"), []. repeat split; reflexivity.
+    - (* EBool *) destruct b; [exists KBool, (bs "true"), [] | exists KBool, (bs "false"), []]; repeat split; reflexivity.
+    - (* EInt *) unfold int_ok in P. apply andb_prop in P. destruct P as [P0 _].
+      apply Z.leb_le in P0.
+      assert (E : (z <? 0)%Z = false) by (apply Z.ltb_ge; lia).
+      exists KInt, (digits (Z.to_N z)), []. repeat split; try reflexivity.
+      cbn [body]. rewrite E. reflexivity.
+    - (* EStr *) eexists _, _, _. repeat split; reflexivity.
+    - (* EArr *) eexists _, _, _. repeat split; reflexivity.
+    - (* EVar *) unfold var_ok in P. destruct (good_head_varname _ P) as [G U].
+      exists (word_kind (runes_of x)), x, []. repeat split; auto.
+    - (* EParam *) eexists _, _, _. repeat split; reflexivity.
+    - (* EUn *) destruct o; eexists _, _, _; (repeat split; try reflexivity; simpl; lia).
+    - (* ELog *)
+      apply andb_prop in P; destruct P as [P1 P2].
+      assert (Ha : head_ok e1) by (apply IHe1; assumption).
+      destruct o; simpl.
+      + destruct (head_of_left 3 e1 (tk KAnd "AND" :: wrap (needsx 4 e2) (bodyx e2)) 3 Ha (le_n _)) as (k & t & r & E & G & U).
+        exists k, t, r. repeat split; auto; intros; try apply U; simpl in *; lia.
+      + destruct (head_of_left 2 e1 (tk KOr "OR" :: wrap (needsx 3 e2) (bodyx e2)) 2 Ha (le_n _)) as (k & t & r & E & G & U).
+        exists k, t, r. repeat split; auto; intros; try apply U; simpl in *; lia.
+    - (* ECond *)
+      apply andb_prop in P; destruct P as [P1 P2].
+      apply andb_prop in P1. destruct P1 as [Pc Pt].
+      assert (Ha : head_ok e1) by (apply IHe1; assumption).
+      destruct (head_of_left 1 e1 (tk KQuestion "?" :: match t with Some t' => wrap (needsx 2 t') (bodyx t') | None => [] end ++ tk KColon ":" :: wrap (needsx 2 e2) (bodyx e2)) 1 Ha (le_n _)) as (k & t0 & r & E & G & U).
+      exists k, t0, r. repeat split; auto; intros; try apply U; simpl in *; lia.
+    - (* ECmp *)
+      apply andb_prop in P; destruct P as [P1 P2].
+      assert (Ha : head_ok e1) by (apply IHe1; assumption).
+      destruct (head_of_left 8 e1 (cmp_tok o :: wrap (needsx 9 e2) (bodyx e2)) 8 Ha (le_n _)) as (k & t & r & E & G & U).
+      exists k, t, r. repeat split; auto; intros; try apply U; simpl in *; lia.
+    - (* EIn *)
+      apply andb_prop in P; destruct P as [P1 P2].
+      assert (Ha : head_ok e1) by (apply IHe1; assumption).
+      destruct (head_of_left 6 e1 (in_toks neg ++ wrap (needsx 7 e2) (bodyx e2)) 6 Ha (le_n _)) as (k & t & r & E & G & U).
+      exists k, t, r. repeat split; auto; intros; try apply U; simpl in *; lia.
+    - (* EQuant *)
+      apply andb_prop in P; destruct P as [P1 P2].
+      assert (Ha : head_ok e1) by (apply IHe1; assumption).
+      destruct (head_of_left 7 e1 (quant_tok q :: match c with QCmp o => [cmp_tok o] | QIn n => in_toks n end ++ wrap (needsx 8 e2) (bodyx e2)) 7 Ha (le_n _)) as (k & t & r & E & G & U).
+      exists k, t, r. repeat split; auto; intros; try apply U; simpl in *; lia.
+    - (* ELike *)
+      apply andb_prop in P; destruct P as [P1 P2].
+      assert (Ha : head_ok e1) by (apply IHe1; assumption).
+      destruct (head_of_left 5 e1 (like_toks neg ++ wrap (needsx 6 e2) (bodyx e2)) 5 Ha (le_n _)) as (k & t & r & E & G & U).
+      exists k, t, r. repeat split; auto; intros; try apply U; simpl in *; lia.
+    - (* ERegex *)
+      apply andb_prop in P; destruct P as [P1 P2].
+      assert (Ha : head_ok e1) by (apply IHe1; assumption).
+      destruct (head_of_left 9 e1 ((if neg then tk KRegexNotMatch "!~" else tk KRegexMatch "=~") :: wrap (needsx 10 e2) (bodyx e2)) 9 Ha (le_n _)) as (k & t & r & E & G & U).
+      exists k, t, r. repeat split; auto; intros; try apply U; simpl in *; lia.
+    - (* EMath *)
+      apply andb_prop in P; destruct P as [P1 P2].
+      assert (Ha : head_ok e1) by (apply IHe1; assumption).
+      destruct o; simpl.
+      + destruct (head_of_left 10 e1 (math_tok MAdd :: wrap (needsx 11 e2) (bodyx e2)) 10 Ha (le_n _)) as (k & t & r & E & G & U).
+        exists k, t, r. repeat split; auto; intros; try apply U; simpl in *; lia.
+      + destruct (head_of_left 10 e1 (math_tok MSub :: wrap (needsx 11 e2) (bodyx e2)) 10 Ha (le_n _)) as (k & t & r & E & G & U).
+        exists k, t, r. repeat split; auto; intros; try apply U; simpl in *; lia.
+      + destruct (head_of_left 11 e1 (math_tok MMul :: wrap (needsx 12 e2) (bodyx e2)) 11 Ha (le_n _)) as (k & t & r & E & G & U).
+        exists k, t, r. repeat split; auto; intros; try apply U; simpl in *; lia.
+      + destruct (head_of_left 11 e1 (math_tok MDiv :: wrap (needsx 12 e2) (bodyx e2)) 11 Ha (le_n _)) as (k & t & r & E & G & U).
+        exists k, t, r. repeat split; auto; intros; try apply U; simpl in *; lia.
+      + destruct (head_of_left 11 e1 (math_tok MMod :: wrap (needsx 12 e2) (bodyx e2)) 11 Ha (le_n _)) as (k & t & r & E & G & U).
+        exists k, t, r. repeat split; auto; intros; try apply U; simpl in *; lia.
+    - (* ECall *) apply andb_prop in P; destruct P as [P1 P2].
+      unfold call_ok in P1. apply andb_prop in P1. destruct P1 as [Pi _].
+      exists (word_kind (runes_of f)), f, (LP :: (fix go (l : list expr) : toks :=
+           match l with
+           | [] => []
+           | [x] => wrap (needsx 1 x) (bodyx x)
+           | x :: r => wrap (needsx 1 x) (bodyx x) ++ COMMA :: go r
+           end) args ++ [RP]).
+      repeat split.
+      + destruct (word_kind (runes_of f)); try discriminate; reflexivity.
+      + intros _. destruct (word_kind (runes_of f)); try discriminate; reflexivity.
+    - (* ESuppress *) eexists _, _, _. repeat split; reflexivity.
+  Qed.
+End RoundTrip.
+
+Section PrList.
+  Variable extra : expr -> bool.
+  Fixpoint pr_list (l : list expr) : toks :=
+    match l with
+    | [] => []
+    | [x] => pr extra 1 x
+    | x :: r => pr extra 1 x ++ COMMA :: pr_list r
+    end.
+End PrList.
+
+Lemma body_arr : forall extra es,
+  body extra (EArr es) = tk KLBrack "[" :: pr_list extra es ++ [tk KRBrack "]"].
+Proof. reflexivity. Qed.
+Lemma body_call : forall extra f args,
+  body extra (ECall f args) = word_tok f :: LP :: pr_list extra args ++ [RP].
+Proof. reflexivity. Qed.
+
+Lemma primary_paren : forall pe tb g ts,
+  hd_kind ts <> Some KFor ->
+  primary pe tb g (LP :: ts) =
+  bind_tok (pe false 1 ts) (is_rparen) (fun e r' => postfix_q pe tb e r').
+Proof.
+  intros pe tb g ts H. unfold primary, LP, tk.
+  destruct ts as [|[k t] r]; [reflexivity|].
+  destruct k; try reflexivity. simpl in H. congruence.
+Qed.
+
+Lemma good_head_facts : forall k, good_head k = true ->
+  k <> KFor /\ k <> KColon /\ k <> KDot /\ k <> KQuestion /\ is_rparen k = false /\ is_rbrack k = false
+  /\ k <> KNsSeg.
+Proof. intros k H. destruct k; try discriminate; repeat split; congruence. Qed.
+
+Lemma bin_view_none : forall e, bin_view e = None -> bin_level (level e) = false.
+Proof.
+  intros e H. destruct e; try discriminate; try reflexivity.
+  - simpl. destruct (z <? 0)%Z; reflexivity.
+  - destruct o; discriminate.
+Qed.
+
+Lemma level_one : forall e, level e = 1 -> exists c t f, e = ECond c t f.
+Proof.
+  intros e H. destruct e; simpl in H; try discriminate; try (destruct o; discriminate).
+  - destruct (z <? 0)%Z; discriminate.
+  - eauto.
+Qed.
+
+Lemma level_ge_1 : forall e, 1 <= level e.
+Proof.
+  intros e. destruct e; simpl; try lia; try (destruct o; lia).
+  destruct (z <? 0)%Z; lia.
+Qed.
+
+Lemma level_le_12 : forall e, level e <= 12.
+Proof.
+  intros e. destruct e; simpl; try lia; try (destruct o; lia).
+  destruct (z <? 0)%Z; lia.
+Qed.
+
+Section RT2.
+  Variable extra : expr -> bool.
+  Local Notation bodyx := (body extra).
+  Local Notation prx := (pr extra).
+  Local Notation needsx := (needs extra).
+
+  Definition GoodAt (e : expr) : Prop := forall tb lv rest B f,
+      lv <= level e -> (tb = true -> 2 <= level e) ->
+      ctx_ok tb B lv rest -> need e + B <= f ->
+      parse_at f tb lv (bodyx e ++ rest) = POk e rest.
+
+  Lemma body_hd_kind : forall e rest, printable e = true ->
+    exists k, hd_kind (bodyx e ++ rest) = Some k /\ good_head k = true /\
+              (5 <= level e -> unop_of k = None).
+  Proof.
+    intros e rest P. destruct (body_head extra e P) as (k & t & r & Hb & Hg & Hu).
+    exists k. rewrite Hb. repeat split; auto.
+  Qed.
+
+  Lemma pr_hd_kind : forall m e rest, printable e = true ->
+    exists k, hd_kind (prx m e ++ rest) = Some k /\ good_head k = true /\
+              (5 <= m -> unop_of k = None).
+  Proof.
+    intros m e rest P. unfold pr, wrap. destruct (needsx m e) eqn:N.
+    - exists KLParen. repeat split; reflexivity.
+    - destruct (body_hd_kind e rest P) as (k & Hk & Hg & Hu). exists k. repeat split; auto.
+      intros H5. apply Hu. unfold needs in N. apply Bool.orb_false_elim in N. destruct N as [N _].
+      apply Nat.ltb_ge in N. lia.
+  Qed.
+
+  Lemma wrapped_of_good : forall e, printable e = true -> GoodAt e ->
+    forall tb lv rest B f,
+      lv <= 12 -> ctx_ok tb B lv rest -> need e + 16 + B <= f ->
+      parse_at f tb lv (LP :: bodyx e ++ RP :: rest) = POk e rest.
+  Proof.
+    intros e P G tb lv rest B f Hlv [Hs [Hn Hq]] Hf.
+    assert (Hsz := size_pos e). unfold need in Hf.
+    replace f with (S (f + lv - 13) + (12 - lv)) by lia.
+    apply from_primary; try lia.
+    - rewrite primary_paren.
+      + rewrite (G false 1 (RP :: rest) 0).
+        * unfold RP, tk. cbn [bind_tok is_rparen]. apply postfix_q_keep with (B := B); [exact Hq|lia].
+        * apply level_ge_1.
+        * discriminate.
+        * apply ctx_closer. reflexivity.
+        * unfold need. lia.
+      + destruct (body_hd_kind e (RP :: rest) P) as (k & Hk & Hg & _). rewrite Hk.
+        destruct (good_head_facts k Hg) as [HF _]. congruence.
+    - exact Hs.
+    - intros _. reflexivity.
+  Qed.
+End RT2.
